@@ -280,7 +280,7 @@ pub fn plan_for(id: &str) -> Option<Plan> {
             ],
             exhaustive: false,
         }),
-        "C09" => Some(hub_plan("C09", 6000, 200_000, vec!["rollover_of_nonzero_remainder", "grace_increased_mid_history", "claim_paid_several_epochs", "run_reached_grace_plus_2_epochs", "expired_epoch_selected_again_after_grace_increase"])),
+        "C09" => Some(hub_plan("C09", 6000, 200_000, vec!["rollover_of_nonzero_remainder", "grace_increased_mid_history", "claim_paid_several_epochs", "run_reached_grace_plus_2_epochs", "expired_epoch_selected_again_after_grace_increase", "duration_raised_mid_history", "late_first_bonder_offered_epoch_started_before_bonding"])),
         "C10" => Some(hub_plan("C10", 6000, 200_000, vec!["take_rate_paid_and_recorded", "take_rate_inactive", "asset_swapped_through_route", "asset_left_no_route", "pair_pending_below_threshold_stays_owed", "vault_pending_collected", "forward_fees_refused", "query_fault_absorbed_by_fallback"])),
         "C20" => Some(Plan {
             property: "C20",
